@@ -7,7 +7,7 @@ Tie (model = coq/Model/Constr.v extracted, run at OCaml floats):
                       after real optimiser steps (optax.adam on the partitioned params; fit_to_data); unwrap(obj) fields
                       == the model's reparameterisation of the same raw values; validity predicates hold.
   U3 ctor-rejects   : constructors accept/raise == the model's `*_rejects` at the edge of validity.
-  hyp               : every hypothesis the proofs force (w <> 0, row <> 0, slope <= 1, lo < hi, ...) replayed on the code.
+  hyp               : every hypothesis the proofs force (w <> 0, row <> 0, lo < hi, ...) replayed on the code.
 Search oracle (independent of the model): the constraint predicates evaluated on unwrap(obj) alone.
 """
 
@@ -28,11 +28,11 @@ MANIFEST = {
     "text": "Theorems for EVERY real raw value and every vector length (no box): softplus-reparameterised scales/diagonals/df/rates "
             "are > 0 and the constructor round trip softplus(softplus_inv y) = y holds for y > 0; scale > min_scale for the flows' "
             "default transformer; spline knots are strictly increasing from interval[0] to interval[1] for every raw vector, every "
-            "lo < hi and every softmax_adjust >= 0, derivatives > min_derivative; planar w.u_hat > -1 for every w <> 0 (hence "
-            "1 + s w.u_hat > 0 for slopes 0 < s <= 1); mixture weights > 0 and sum to 1 for any logits; weight-normalised non-zero "
+            "lo < hi and every softmax_adjust >= 0, derivatives > min_derivative; planar (as repaired by e65a946) w.u_hat > -1/max(1, slope) for every w <> 0, hence "
+            "both inverse denominators 1 + w.u_hat and 1 + slope w.u_hat are > 0 for EVERY slope > 0; mixture weights > 0 and sum to 1 for any logits; weight-normalised non-zero "
             "rows have norm = scale; triangular diagonal > 0, covariance reproduced; each constructor check accepts exactly the "
-            "valid arguments (boolean model `*_rejects`). The full statement for planar slopes > 1 is refuted in the model "
-            "(C11_planar_slope_gt1_refuted) and replayed on the code. PARTIAL (floats): softplus/exp underflow and absorption "
+            "valid arguments (boolean model `*_rejects`). The planar formula before the fix is refuted for slopes > 1 "
+            "(C11_planar_slope_gt1_old_refuted) and its witness replayed on the code. PARTIAL (floats): softplus/exp underflow and absorption "
             "(softplus(raw)+min = min, knots collapsing for softmax_adjust = 0) are outside the R-model; the box |raw| <= 50 is "
             "run on the real code in float64 (tie + oracle) and float32 (oracle), strictness being asserted only where the exact "
             "margin exceeds the rounding noise. The model is tied to /repo on every run by comparing unwrap() of real objects whose "
@@ -41,7 +41,7 @@ MANIFEST = {
     "note": "Trusted: Coq kernel; extraction (ExtrOcamlBasic); OCaml driver + libm; harness. linalg.cholesky, jax.nn.softmax/"
             "log_softmax/softplus are modelled by their formulas (softmax with max-shift). Hypotheses forced by the proofs are explicit "
             "and replayed: w == 0 (Planar) and an all-zero row (WeightNormalization) give NaN on the real code (candidate known "
-            "findings, skipped by the tie and reported in notes); negative_slope > 1 is accepted by Planar but breaks injectivity. "
+            "findings, skipped by the tie and reported in notes). "
             "Denormal constructor arguments are excluded (XLA flushes them to zero, OCaml does not).",
 }
 
@@ -395,10 +395,11 @@ class PlanarKind(Kind):
     def reqs(self, st, raws):
         w, u, _ = self.split(st, raws["params"])
         mag = max(1.0, float(np.max(np.abs(u))), float(np.max(np.abs(w))))
-        r = [("uhat", f"planar {hexlist(w)} {hexlist(u)}", lambda s: flist(s.split(" ")[0]), mag)]
-        if st.get("slope") is not None:
-            r.append(("absdenom", f"planar.denom {fhex(st['slope'])} {hexlist(w)} {hexlist(u)}", lambda s: np.abs(A(fparse(s))),
-                      max(1.0, float(np.sum(np.abs(w) * mag)))))
+        sl = st.get("slope")
+        r = [("uhat", f"planar {'none' if sl is None else fhex(sl)} {hexlist(w)} {hexlist(u)}", lambda s: flist(s.split(" ")[0]), mag)]
+        if sl is not None:  # the branch with relu slope = negative_slope
+            r.append(("absdenom", f"planar.denom {fhex(sl)} {fhex(sl)} {hexlist(w)} {hexlist(u)}", lambda s: np.abs(A(fparse(s))),
+                      max(1.0, sl * float(np.sum(np.abs(w) * mag)))))
         return r
 
     def oracle(self, st, raws, obs, eps):
@@ -409,16 +410,18 @@ class PlanarKind(Kind):
             return ["u_hat non-finite"]
         wu = float(w @ uh)
         noise = 64 * eps * max(1.0, float(np.sum(np.abs(w * uh))), float(np.sum(np.abs(w * u))))
-        margin = float(np.log1p(softplus_np(float(w @ u))))  # exact w.u_hat + 1
-        if margin > 4 * noise:
-            if not wu > -1:
-                e.append("planar: w.u_hat <= -1")
-        elif not wu >= -1 - noise:
-            e.append("planar: w.u_hat < -1")
-        s_ = st.get("slope")
-        if s_ is not None and 0 < s_ <= 1:
-            if (1 - s_) + s_ * margin > 4 * noise and not 1 + s_ * wu > 0:
-                e.append("planar: 1 + slope*w.u_hat <= 0")
+        margin = float(np.log1p(softplus_np(float(w @ u))))  # exact value of m + 1, m = -1 + log(1 + softplus(w.u))
+        sl = st.get("slope")
+        k = 1.0 if sl is None else max(1.0, sl)
+        # exact: w.u_hat = (margin - 1)/k, so 1 + s*w.u_hat = (1 - s/k) + (s/k)*margin for a branch slope s
+        for s_ in ([1.0] if sl is None else [1.0, sl]):
+            exact = (1 - s_ / k) + (s_ / k) * margin
+            val = 1 + s_ * wu
+            if exact > 4 * max(1.0, s_) * noise:
+                if not val > 0:
+                    e.append(f"planar: 1 + {'slope*' if s_ != 1.0 else ''}w.u_hat <= 0 (not invertible)")
+            elif not val >= -max(1.0, s_) * noise:  # floats (partial): log(1 + softplus(w.u)) underflows for w.u < -37
+                e.append(f"planar: 1 + {'slope*' if s_ != 1.0 else ''}w.u_hat < 0 (not invertible)")
         return e
 
 
@@ -566,7 +569,8 @@ def statics(rng, name, quick):
                         adj=float(10 ** rng.uniform(-3, 0.5))))
         return out
     if name == "Planar":
-        return [dict(dim=1, slope=None), dict(dim=2, slope=0.5), dict(dim=3, slope=None), dict(dim=5, slope=1.0), dict(dim=2, slope=float(rng.uniform(0.01, 0.99)))]
+        return [dict(dim=1, slope=None), dict(dim=2, slope=0.5), dict(dim=3, slope=None), dict(dim=5, slope=1.0), dict(dim=2, slope=float(rng.uniform(0.01, 0.99))),
+                dict(dim=1, slope=2.0), dict(dim=3, slope=float(rng.uniform(1.01, 20.0)))]
     if name == "VmapMixture":
         return [dict(k=1), dict(k=2), dict(k=5), dict(k=int(rng.integers(2, 12)))]
     if name == "WeightNormalization":
@@ -949,7 +953,8 @@ def unit_ctor_rejects(ctx):
             (v < 0) if (math.isfinite(v) and v != 0 and math.isfinite(inv)) else None, edge(v))
     # Uniform(minval, maxval)
     pairs = [(1.0, 1.0), (1.0, float(np.nextafter(1.0, 2))), (1.0, float(np.nextafter(1.0, 0))), (0.0, -0.0), (-0.0, 0.0), (0.0, TINY), (0.0, -TINY),
-             (-1.0, 1.0), (2.0, 1.0), (1e16, 1e16 + 2), (1e16, 1e16), (-1e300, 1e300), (-inf, 0.0), (0.0, inf), (nan, 1.0), (1.0, nan), (-1e-3, -1e-3), (3.0, 3.0 + 1e-9)]
+             (-1.0, 1.0), (2.0, 1.0), (1e16, 1e16 + 2), (1e16, 1e16), (-1e300, 1e300), (-inf, 0.0), (0.0, inf), (nan, 1.0), (1.0, nan), (-1e-3, -1e-3), (3.0, 3.0 + 1e-9),
+             (0.0, -inf), (inf, 0.0), (inf, inf), (-inf, -inf), (-inf, inf), (1e300, -1e300)]
     for _ in range(0 if ctx.quick else 40):
         a = float(rng.normal(0, 1) * 10 ** rng.uniform(-3, 3))
         pairs.append((a, float(rng.choice([a, np.nextafter(a, inf), np.nextafter(a, -inf), a + abs(a) * 1e-12]))))
@@ -970,13 +975,14 @@ def unit_ctor_rejects(ctx):
             lambda adj=adj: W.unwrap(B.RationalQuadraticSpline(knots=3, interval=2, softmax_adjust=adj)).x_pos,
             f"rej.knots {fhex(adj)}", None if math.isnan(adj) else (adj < 0), edge(adj))
     # Permute(permutation)
-    perms = [[], [0], [1], [-1], [0, 1], [1, 0], [0, 0], [1, 1], [0, 2], [0, 1, 1], [0, 2, 1], [2, 0, 1], [1, 2, 3], [-1, 0, 1], [0, 1, 3], [3, 2, 1, 0], [0, 1, 2, 2], [2, 2, 2]]
-    for _ in range(10 if ctx.quick else 200):
+    perms = [[], [0], [1], [-1], [0, 1], [1, 0], [0, 0], [1, 1], [0, 2], [0, 1, 1], [0, 2, 1], [2, 0, 1], [1, 2, 3], [-1, 0, 1], [0, 1, 3], [3, 2, 1, 0], [0, 1, 2, 2], [2, 2, 2],
+             [0, 1, 1, 3], [0, 2, 2, 3], [3, 1, 1, 0], [0, 0, 2], [0, 2, 2], [2, 0, 0], [0, 1, 3, 3, 4], [4, 2, 2, 0, 1], [0, 5, 1], [1, 1, 0, 3]]
+    for _ in range(40 if ctx.quick else 400):
         n = int(rng.integers(2, 9))
         p = rng.permutation(n)
-        if rng.random() < 0.6:
+        if rng.random() < 0.7:
             j = int(rng.integers(n))
-            p[j] = rng.choice([p[(j + 1) % n], n, -1, p[j]])
+            p[j] = rng.choice([p[(j + 1) % n], p[(j + 1) % n], p[(j + 2) % n], n, -1, p[j]])  # mostly: one repeated entry
         perms.append([int(x) for x in p])
     for p in perms:
         arr = np.asarray(p, dtype=np.int64)
@@ -1016,14 +1022,14 @@ def candidate(ctx, sig, text, case):
 def unit_hypotheses(ctx):
     s = S()
     jnp, B, D, W, eqx, UP = s["jnp"], s["B"], s["D"], s["W"], s["eqx"], s["UP"]
-    u = ctx.unit("hypothesis-replay", "each hypothesis a theorem of Props/C11.v needs (w <> 0, row <> 0, slope <= 1, lo < hi, raw <> [], md < 1, "
+    u = ctx.unit("hypothesis-replay", "each hypothesis a theorem of Props/C11.v needs (w <> 0, row <> 0, lo < hi, raw <> [], md < 1, "
                                       "rate <> 0, positive-definite covariance, softmax_adjust > 0 in floats) replayed at its boundary on the real "
                                       "code; the model is compared where it is defined; outcomes go to the notes")
     # 1. Planar weight == 0
     w, uu = [0.0, 0.0], [0.3, -0.2]
     p = UP(jnp.asarray(w), jnp.asarray(uu), jnp.asarray(0.1), 0.5)
     y = A(p.transform(jnp.ones(2)))
-    m = ctx.model([f"planar {hexlist(w)} {hexlist(uu)}"])[0]
+    m = ctx.model([f"planar {fhex(0.5)} {hexlist(w)} {hexlist(uu)}"])[0]
     u.count("planar-w0", tag="planar w=0")
     if np.any(np.isnan(y)):
         candidate(ctx, "Planar:weight==0:nan", f"_UnconditionalPlanar(weight=[0,0], act_scale=[0.3,-0.2], bias=0.1, negative_slope=0.5).transform([1,1]) = {y.tolist()} "
@@ -1044,9 +1050,10 @@ def unit_hypotheses(ctx):
                        "theorem C11_weightnorm_row_norm carries row <> 0", dict(unit="hypothesis-replay", which="wn-zero-row"))
     else:
         note_once(ctx, f"hypothesis-replay: WeightNormalization zero row now unwraps to {uw.tolist()}")
-    # 3. Planar negative_slope > 1 (witness of C11_planar_slope_gt1_refuted)
+    # 3. Planar negative_slope > 1: the witness of C11_planar_slope_gt1_old_refuted (formula before fix e65a946) on the current code
     p = UP(jnp.asarray([1.0]), jnp.asarray([-5.0]), jnp.asarray(0.0), 2.0)
-    den_model = fparse(ctx.model([f"planar.denom {fhex(2.0)} {hexlist([1.0])} {hexlist([-5.0])}"])[0])
+    mo = ctx.model([f"planar.denom.old {fhex(2.0)} {hexlist([1.0])} {hexlist([-5.0])}", f"planar.denom {fhex(2.0)} {fhex(2.0)} {hexlist([1.0])} {hexlist([-5.0])}"])
+    den_old, den_model = fparse(mo[0]), fparse(mo[1])
     x1 = jnp.asarray([-1.0])
     y1, ld = p.transform_and_log_det(x1)
     back = A(p.inverse(y1))
@@ -1054,13 +1061,14 @@ def unit_hypotheses(ctx):
     u.count("planar-slope-2", tag="planar slope>1")
     if not close(den_impl, abs(den_model), 1.0):
         u.disagreements += 1
-        ctx.violation(sig="Planar:slope>1:model-mismatch", found_input=False, unit=u.name, what=f"planar |denominator| {den_impl} vs model {den_model}",
-                      case=dict(unit="hypothesis-replay", which="planar-slope-2"), expected=den_model, observed=den_impl)
-    if den_model < 0 and not np.allclose(back, A(x1), rtol=1e-9, atol=1e-9):
-        candidate(ctx, "Planar:negative_slope>1:not-injective",
-                  f"Planar accepts negative_slope = 2 but w.u_hat > -1 does not make it invertible: _UnconditionalPlanar(weight=[1], act_scale=[-5], bias=0, "
-                  f"negative_slope=2): 1 + slope*w.u_hat = {den_model:.6g} < 0 (model, C11_planar_slope_gt1_refuted); transform([-1]) = {A(y1).tolist()}, "
-                  f"inverse(transform([-1])) = {back.tolist()} != [-1] (two preimages)", dict(unit="hypothesis-replay", which="planar-slope-2"))
+        ctx.violation(sig="Planar:slope>1:model-mismatch", found_input=not np.allclose(back, A(x1), rtol=1e-9, atol=1e-9), unit=u.name,
+                      what=f"_UnconditionalPlanar(weight=[1], act_scale=[-5], bias=0, negative_slope=2): |1 + slope*w.u_hat| = {den_impl} vs model {den_model} "
+                           f"(formula before fix e65a946: {den_old}); transform([-1]) = {A(y1).tolist()}, inverse(transform([-1])) = {back.tolist()}",
+                      case=dict(unit="hypothesis-replay", which="planar-slope-2"), expected=den_model, observed=den_impl,
+                      broken="correspondence hypothesis-replay / C11_planar_invertible")
+    else:
+        note_once(ctx, f"hypothesis-replay: Planar negative_slope = 2, weight=[1], act_scale=[-5]: 1 + slope*w.u_hat = {den_model:.6g} > 0 on the current code "
+                       f"(the formula before fix e65a946 gives {den_old:.6g} < 0, C11_planar_slope_gt1_old_refuted); inverse(transform([-1])) = {back.tolist()}")
     # 4..9: observations (out-of-contract arguments that are silently accepted; float-only effects)
     def obs(tag, f):
         u.count(tag, tag=tag)
